@@ -1,4 +1,4 @@
-from ...utils.bitfun import encode_imm32, align, wrap_negative
+from ...utils.bitfun import encode_imm32, align, wrap_negative, inrange
 from ..encoding import Relocation
 from .isa import ArmToken, arm_isa
 
@@ -26,6 +26,10 @@ class Imm24Relocation(Relocation):
         assert sym_value % 4 == 0
         assert reloc_value % 4 == 0
         offset = sym_value - (reloc_value + 8)
+        # wrap_negative alone also accepts 2**23..2**24-1, which the
+        # processor reads back as a negative (backward) offset:
+        if not inrange(offset >> 2, 24):
+            raise ValueError(f"imm24: branch offset {offset} out of range")
         return wrap_negative(offset >> 2, 24)
 
 
